@@ -129,6 +129,23 @@ fn main() {
                 std::fs::write(&out, text).unwrap();
             }
         }
+        "probe-parse-deep" => {
+            // child-process entry point of C02's deep-nesting stream: exit 0 = parsed, 3 = error value, anything else (a signal
+            // after stack exhaustion, a panic) = the parser is not total on this text
+            let depth: usize = args[2].parse().unwrap_or(1000);
+            let kind = args[3].as_str();
+            let text = c02::deep_text(depth, kind);
+            let code = match phylotree::tree::Tree::from_newick(&text) {
+                Ok(t) => {
+                    // the tree is leaked on purpose: only the parser is under test here (dropping is flat anyway)
+                    let n = t.size();
+                    std::mem::forget(t);
+                    if n >= depth { 0 } else { 4 }
+                }
+                Err(_) => 3,
+            };
+            std::process::exit(code);
+        }
         "probe-gen" => {
             let code = c20::probe_gen(&args[2], args[3].parse().unwrap_or(0), args[4] == "1");
             std::process::exit(code);
